@@ -31,10 +31,13 @@ structure Obs where
   fe    : Option Nat
   runs  : Nat             -- how often this call's own function was executed
   stuck : Bool            -- the call did not return while only calls on other keys were being held
-  panicked : Bool := false  -- the call panicked (no scripted function panics)
+  panicked : Bool := false  -- the call panicked
+  spanic : Bool := false    -- scripted: the function panics (outside the property's quantifier; see Props.lean)
   deriving Repr
 
 def Obs.ran (o : Obs) : Bool := o.runs > 0
+/-- ResourceManager: this call's `create` ran and succeeded (scripted: no error, no panic). -/
+def Obs.created (o : Obs) : Bool := o.runs > 0 && !o.serr && !o.spanic
 
 /-- executions of two different calls on the same key must not overlap. -/
 def overlapping (a b : Obs) : Bool :=
@@ -56,7 +59,10 @@ def callsOverlap (l r : Obs) : Bool := l.inv < r.ret && r.inv < l.ret
 /-- SingleFlight: whose result did `r` get, and was it allowed to get it. -/
 def noStaleViolation (h : List Obs) (r : Obs) : Option String :=
   match r.val with
-  | none => some s!"no-stale: call {r.id} (key {r.key}) got a value that no execution produced"
+  | none =>
+    -- the zero values: only as joiner of a flight whose function panicked (what the code does; `sf_panic_joiners_zero`)
+    if !r.ran && r.err.isNone && h.any (fun l => l.key = r.key && l.ran && l.spanic && l.id ≠ r.id && callsOverlap l r) then none
+    else some s!"no-stale: call {r.id} (key {r.key}) got a value that no execution produced"
   | some v =>
     match h.find? (·.id = v) with
     | none => some s!"no-stale: call {r.id} (key {r.key}) got a value of unknown execution {v}"
@@ -85,13 +91,15 @@ def stuckViolation (r : Obs) : Option String :=
   if r.stuck then some s!"stuck: call {r.id} on key {r.key} did not finish although nothing it may wait for was running (keys-independent / lost wake-up)"
   else none
 
+/-- a call may panic only with its own function's (scripted) panic. -/
 def panicViolation (r : Obs) : Option String :=
-  if r.panicked then some s!"panic: call {r.id} on key {r.key} panicked although no user function panics" else none
+  if r.panicked && !(r.ran && r.spanic) then
+    some s!"panic: call {r.id} on key {r.key} panicked although its own function did not" else none
 
 def sfViolations (h : List Obs) : List (Nat × String) :=
   exclusiveViolations h
-  ++ h.filterMap (fun r => (noStaleViolation h r).map (r.line, ·))
-  ++ h.filterMap (fun r => (freshViolation r).map (r.line, ·))
+  ++ h.filterMap (fun r => if r.panicked then none else (noStaleViolation h r).map (r.line, ·))
+  ++ h.filterMap (fun r => if r.panicked then none else (freshViolation r).map (r.line, ·))
   ++ h.filterMap (fun r => if r.runs > 1 then some (r.line, s!"exclusive: function of call {r.id} executed {r.runs} times") else none)
   ++ h.filterMap (fun r => (stuckViolation r).map (r.line, ·))
   ++ h.filterMap (fun r => (panicViolation r).map (r.line, ·))
@@ -99,6 +107,7 @@ def sfViolations (h : List Obs) : List (Nat × String) :=
 /-- LockedCalls: own function exactly once, own result. -/
 def ownFnViolation (r : Obs) : Option String :=
   if r.runs ≠ 1 then some s!"own-fn-once: function of call {r.id} (key {r.key}) executed {r.runs} times"
+  else if r.panicked then none    -- the caller's own function panicked (see `panicViolation`): nothing is returned
   else if r.val ≠ some r.id then some s!"own-fn-once: call {r.id} returned the value of {r.val}"
   else if r.err ≠ (if r.serr then some r.id else none) then some s!"own-fn-once: call {r.id} returned the error of {r.err}"
   else none
@@ -110,8 +119,14 @@ def lcViolations (h : List Obs) : List (Nat × String) :=
   ++ h.filterMap (fun r => (panicViolation r).map (r.line, ·))
 
 /-- ResourceManager: `serr` = scripted failure of `create`; a successful `create` returns the call's id as instance. -/
-def rmCallViolation (h : List Obs) (r : Obs) : Option String :=
-  let created := h.filter fun c => c.key = r.key && c.ran && !c.serr
+def rmCallViolation (inj : List (Nat × Nat)) (h : List Obs) (r : Obs) : Option String :=
+  let created := h.filter fun c => c.key = r.key && c.created
+  match inj.lookup r.key with
+  | some n =>
+    -- the key was pre-registered with instance `n` (Inject before any call): everyone gets that one, create never runs
+    if r.val = some n && r.err.isNone && !r.ran then none
+    else some s!"rm-same-instance: key {r.key} is registered with instance {n} but call {r.id} got val={r.val} err={r.err} after {r.runs} create call(s)"
+  | none =>
   match r.val, r.err with
   | some v, none =>
     if created.any (·.id = v) then none
@@ -119,25 +134,33 @@ def rmCallViolation (h : List Obs) (r : Obs) : Option String :=
   | none, some e =>
     match h.find? (·.id = e) with
     | some l =>
-      if l.key = r.key && l.ran && l.serr && (l.id = r.id || callsOverlap l r) then none
+      if l.key = r.key && l.ran && l.serr && !l.spanic && (l.id = r.id || callsOverlap l r) then none
       else some s!"rm-error: call {r.id} (key {r.key}) got the error of create {e} which it may not get"
     | none => some s!"rm-error: call {r.id} got an unknown error {e}"
   | _, _ => some s!"rm: call {r.id} returned neither exactly an instance nor exactly an error"
 
 def rmKeyViolations (h : List Obs) : List (Nat × String) :=
   h.filterMap fun c =>
-    if c.ran && !c.serr then
-      match h.find? (fun d => d.key = c.key && d.ran && !d.serr && d.id < c.id) with
+    if c.created then
+      match h.find? (fun d => d.key = c.key && d.created && d.id < c.id) with
       | some d => some (c.line, s!"rm-create-once: key {c.key} created successfully by call {d.id} and again by call {c.id}")
       | none => none
     else none
 
-def rmViolations (h : List Obs) : List (Nat × String) :=
+/-- ResourceManager: a call may panic with its own `create`'s panic, or as a joiner of a flight whose `create`
+panicked (`val.(io.Closer)` on the nil result; what the code does, see `rm_panic_cleanup`). -/
+def rmPanicViolation (h : List Obs) (r : Obs) : Option String :=
+  if !r.panicked then none
+  else if r.ran && r.spanic then none
+  else if !r.ran && h.any (fun l => l.key = r.key && l.ran && l.spanic && l.id ≠ r.id && callsOverlap l r) then none
+  else some s!"panic: call {r.id} on key {r.key} panicked although neither its own create nor the create of a flight it could join did"
+
+def rmViolations (inj : List (Nat × Nat)) (h : List Obs) : List (Nat × String) :=
   exclusiveViolations h
   ++ rmKeyViolations h
-  ++ h.filterMap (fun r => (rmCallViolation h r).map (r.line, ·))
+  ++ h.filterMap (fun r => if r.panicked then none else (rmCallViolation inj h r).map (r.line, ·))
   ++ h.filterMap (fun r => if r.runs > 1 then some (r.line, s!"rm: create of call {r.id} executed {r.runs} times") else none)
   ++ h.filterMap (fun r => (stuckViolation r).map (r.line, ·))
-  ++ h.filterMap (fun r => (panicViolation r).map (r.line, ·))
+  ++ h.filterMap (fun r => (rmPanicViolation h r).map (r.line, ·))
 
 end GoZero.C07.Spec
